@@ -12,6 +12,7 @@ import (
 func init() {
 	vrtHarnesses["VerifC14Reissue"] = VerifC14Reissue
 	vrtHarnesses["VerifC14Expiry"] = VerifC14Expiry
+	vrtHarnesses["VerifC14LateArrival"] = VerifC14LateArrival
 }
 
 // c14Subsets: every non-empty set of missing package numbers out of 2..n (packet 1 always present).
@@ -180,6 +181,96 @@ func VerifC14Reissue() {
 		vrt_Assert(vrt_BytesEq(body, wantBody), "completed body differs after resupply")
 		vrt_Cover("completed-after-resupply", true)
 	}
+}
+
+// VerifC14LateArrival: after more than 5 s of silence the next inbound data is itself one of the
+// transfer's missing packets. A packet has then just arrived, so no re-request is due on that read
+// (and never one naming the packet just received); if it was the last missing one the message
+// completes on that read; otherwise, after another 5 s of silence, a heartbeat draws exactly one
+// re-request naming exactly what is still missing.
+func VerifC14LateArrival() {
+	n := 2 + vrt_Choose("N", 2)
+	fs := c05Transfer("t", 0x0801, n, 0)
+	miss := c14Missing(n)
+	r := vNewReader()
+	start := vNow()
+	for k := 1; k <= n; k++ {
+		if miss[k] {
+			continue
+		}
+		_, err := r.read(fs[k-1].bytes())
+		vrt_Assume(!vNow().After(start.Add(4 * time.Second)))
+		vrt_Assert(err == nil, "valid packet reported as an error")
+	}
+	rec, ok := r.pack.timeoutRecord[0x0801]
+	vrt_Assert(ok, "pending transfer not recorded")
+	last, created := rec.updateTime, rec.createTime
+	first, remaining := 0, 0
+	for k := 2; k <= n; k++ {
+		if miss[k] {
+			if first == 0 {
+				first = k
+			} else {
+				remaining++
+			}
+		}
+	}
+	t0 := vNow()
+	msgs, err := r.read(fs[first-1].bytes())
+	t1 := vNow()
+	vrt_Assume(t0.After(last.Add(5 * time.Second)))      // more than 5 s of silence before it
+	vrt_Assume(!t1.After(t0.Add(4 * time.Second)))       // the read itself takes less than 5 s
+	vrt_Assume(!t1.After(created.Add(50 * time.Second))) // well before expiry
+	vrt_Assert(err == nil, "late packet reported as an error")
+	completes := 0
+	var body []byte
+	for _, m := range msgs {
+		vrt_Assert(m.Command != 0x8003, "re-request sent on the read in which a packet of the transfer has just arrived")
+		if m.ExtensionFields.SubcontractComplete {
+			completes++
+			body = append([]byte{}, m.JTMessage.Body...)
+		}
+	}
+	if remaining == 0 {
+		var wantBody []byte
+		for _, f := range fs {
+			wantBody = append(wantBody, f.body...)
+		}
+		vrt_Assert(completes == 1 && vrt_BytesEq(body, wantBody), "the late packet was the last missing one but the message did not complete with the right body")
+		vrt_Cover("late-packet-completes", true)
+		return
+	}
+	vrt_Assert(completes == 0, "incomplete transfer delivered as complete")
+	rec2, ok2 := r.pack.timeoutRecord[0x0801]
+	vrt_Assert(ok2, "pending transfer forgotten")
+	last2 := rec2.updateTime
+	hb := &vFrame{id: 0x0002, phone: fs[0].phone, serial: 77}
+	t2 := vNow()
+	msgs2, err2 := r.read(hb.bytes())
+	t3 := vNow()
+	vrt_Assume(t2.After(last2.Add(5 * time.Second)))
+	vrt_Assume(!t3.After(created.Add(59 * time.Second)))
+	vrt_Assert(err2 == nil, "heartbeat reported as an error")
+	reqs := 0
+	for _, m := range msgs2 {
+		if m.Command != 0x8003 {
+			continue
+		}
+		reqs++
+		var q model.P0x8003
+		vrt_Assert(q.Parse(m.JTMessage) == nil, "re-request body does not parse as 0x8003")
+		vrt_Assert(q.OriginalSerialNumber == fs[0].serial, "re-request does not name the first packet's serial number")
+		cnt := 0
+		for k := 2; k <= n; k++ {
+			if miss[k] && k != first {
+				vrt_Assert(cnt < len(q.AgainPackageList) && q.AgainPackageList[cnt] == uint16(k), "re-request does not list exactly the packets still missing")
+				cnt++
+			}
+		}
+		vrt_Assert(cnt == len(q.AgainPackageList) && int(q.AgainPackageCount) == cnt, "re-request lists a packet that has arrived")
+	}
+	vrt_Assert(reqs == 1, "exactly one re-request expected after another 5 s of silence")
+	vrt_Cover("re-request-after-late-packet", true)
 }
 
 func jt808BcdString(b []byte) string {
